@@ -170,7 +170,46 @@ def chunker_facts(tb, env):
                             out["why"] = (f"offsets run over range({start}, {U(stop)}, {step}) instead of range(0, len({x}), {step}): "
                                           "the tail of the stream is not emitted for some lengths")
                         return out
+    site = _unbounded_compress_site(tb, env)
+    if site is not None:
+        call, var = site
+        out.update(node=call, shape="unrecognised", why=f"`{U(call)}`: nothing bounds len({var}) at this call (no slice of at most {MAX_CHUNK} bytes, no loop "
+                   f"that drains `{var}` below the limit): a chunk can carry more than 64 KiB")
+        return out
     raise AnalysisError("IWACompressedChunk.to_buffer: chunking of the stream not recognised")
+
+
+def _unbounded_compress_site(tb, env):
+    """A ``compress(v)`` call whose argument is a plain variable that grows by concatenation and whose length no
+    loop test or guard in the function ever compares: the chunk size is unbounded whatever the rest does."""
+    for call in [n for n in body_walk(tb) if isinstance(n, ast.Call) and last_attr(n.func) == "compress" and n.args]:
+        a = call.args[0]
+        if not isinstance(a, ast.Name):
+            continue
+        var = a.id
+        grows = any((isinstance(n, ast.AugAssign) and isinstance(n.op, ast.Add) and U(n.target) == var)
+                    or (isinstance(n, ast.Assign) and U(n.targets[0]) == var and isinstance(n.value, ast.Subscript)
+                        and isinstance(n.value.slice, ast.Slice) and n.value.slice.upper is None)
+                    or (isinstance(n, ast.Assign) and U(n.targets[0]) == var and isinstance(n.value, ast.Call) and last_attr(n.value.func) == "join")
+                    for n in body_walk(tb))
+        if not grows:
+            continue
+        # guards that hold at the call: enclosing while tests, and while loops that finished before it on the same level
+        bounded = False
+        for n in body_walk(tb):
+            if isinstance(n, ast.While) and f"len({var})" in U(n.test):
+                inside = any(x is call for x in ast.walk(n))
+                after = not inside and n.end_lineno < call.lineno
+                if after:
+                    bounded = True  # the loop ran until its test failed: left for the entailment-based shapes
+                if inside:
+                    bounded = True
+            if isinstance(n, ast.If) and f"len({var})" in U(n.test) and any(x is call for x in ast.walk(n)):
+                # `if len(v) <= N:` around the call itself
+                bounded = True
+        if not bounded:
+            return call, var
+    return None
 
 
 def joined_sequence(func, expr):
@@ -346,14 +385,16 @@ def run(repo, rep, tier):
            "" if ok else ch["why"] or "emitted slice and advance differ: bytes are dropped or duplicated at every chunk boundary", key="C05.R2@chunker:consume")
     ok = isinstance(ch["emit"], int) and 0 < ch["emit"] <= MAX_CHUNK
     rep.ob("C05.R2", ch["node"], f"chunk payload <= {MAX_CHUNK} bytes", ok, "" if ok else f"chunk size {ch['emit']} exceeds the 64 KiB container rule (and may overflow the 3-byte length)", key="C05.R2@chunker:max")
-    rep.ob("C05.R2", ch["node"], "chunks emitted in stream order, each compressed separately", ch["ordered"], "", key="C05.R2@chunker:order")
+    if ch["shape"] != "unrecognised":
+        rep.ob("C05.R2", ch["node"], "chunks emitted in stream order, each compressed separately", ch["ordered"], "", key="C05.R2@chunker:order")
     stream = None
     for st in tb.body:
         if isinstance(st, ast.Assign) and isinstance(st.value, ast.Call) and last_attr(st.value.func) == "join" and try_const(st.value.func.value) == b"":
             s = joined_sequence(tb, st.value.args[0])
             if s == [("each", "_.to_buffer()", "self.archives")]:
                 stream = st
-    rep.ob("C05.R2", stream or tb, "stream = join of archive buffers in order", stream is not None, "", key="C05.R2@stream:join")
+    if ch["shape"] != "unrecognised":
+        rep.ob("C05.R2", stream or tb, "stream = join of archive buffers in order", stream is not None, "", key="C05.R2@stream:join")
 
     # ---------------- R3 header lengths refreshed before the header is serialised
     sb = repo.func("iwafile.py", "IWAArchiveSegment.to_buffer")
@@ -433,6 +474,43 @@ def run(repo, rep, tier):
     rep.ob("C05.R4", sfb, "message cursor starts at 0", init0, "", key="C05.R4@messages:start")
     ok = any(isinstance(n, ast.For) and U(n.iter).endswith(".message_infos") and inc and any(inc[0] is x for x in n.body) for n in body_walk(sfb))
     rep.ob("C05.R4", sfb, "one message per message_info in header order", ok, "", key="C05.R4@messages:order")
+    # schema dispatch: a message is parsed with the class of its own type; a patch with the class of the message it patches
+    mloops = [n for n in body_walk(sfb) if isinstance(n, ast.For) and U(n.iter).endswith(".message_infos") and isinstance(n.target, ast.Name)]
+    if len(mloops) != 1:
+        raise AnalysisError("IWAArchiveSegment.from_buffer: message loop not found")
+    mloop, mi = mloops[0], mloops[0].target.id
+    infos = U(mloop.iter)
+
+    def resolve_local(e):
+        hops = 0
+        while isinstance(e, ast.Name) and hops < 3:
+            defs = [n for n in ast.walk(mloop) if isinstance(n, ast.Assign) and len(n.targets) == 1 and U(n.targets[0]) == e.id]
+            if len(defs) != 1:
+                break
+            e = defs[0].value
+            hops += 1
+        return e
+
+    lookups = [n for n in ast.walk(mloop) if isinstance(n, ast.Subscript) and U(n.value) == "ID_NAME_MAP"]
+    own = [n for n in lookups if U(n.slice) == f"{mi}.type"]
+    rep.ob("C05.R4", own[0] if own else mloop, f"a message is parsed with ID_NAME_MAP[{mi}.type]", bool(own), "", key="C05.R4@schema:own")
+    patch_calls = [n for n in ast.walk(mloop) if isinstance(n, ast.Call) and "ProtobufPatch.FromString" in U(n) and call_name(n) in ("partial", "FromString")]
+    if not patch_calls:
+        raise AnalysisError("IWAArchiveSegment.from_buffer: ProtobufPatch.FromString use not found")
+    for pc in patch_calls:
+        args = [a for a in pc.args if "ProtobufPatch" not in U(a)]
+        klass_arg = args[1] if len(args) >= 2 else None
+        k = resolve_local(klass_arg) if klass_arg is not None else None
+        ok = False
+        detail = f"the base class is `{U(klass_arg) if klass_arg is not None else '?'}`"
+        if isinstance(k, ast.Subscript) and U(k.value) == "ID_NAME_MAP" and isinstance(k.slice, ast.Attribute) and k.slice.attr == "type":
+            base = resolve_local(k.slice.value)
+            ok = isinstance(base, ast.Subscript) and U(base.value) == infos and U(base.slice) == f"{mi}.base_message_index"
+            if not ok:
+                detail = f"the base message is `{U(base)}`"
+        rep.ob("C05.R4", pc, f"a patch is parsed against ID_NAME_MAP[{infos}[{mi}.base_message_index].type]", ok,
+               "" if ok else f"{detail}: a patch whose base is not that message is decoded with another schema and re-encoded differently",
+               key="C05.R4@schema:patch-base")
     gi = repo.func("iwafile.py", "get_archive_info_and_remainder")
     rets = [n for n in gi.body if isinstance(n, ast.Return) and isinstance(n.value, ast.Tuple) and len(n.value.elts) == 2]
     ok = False
@@ -479,7 +557,7 @@ def run(repo, rep, tier):
     rep.floor("C05.R1", 10)
     rep.floor("C05.R2", 4)
     rep.floor("C05.R3", 4)
-    rep.floor("C05.R4", 9)
+    rep.floor("C05.R4", 11)
 
 
 def _anc(n, stop=None):
@@ -500,6 +578,31 @@ VARIANTS = [
     M("objects-reversed", "iwafile.py",
       "        return b\"\".join(\n            [_VarintBytes(self.header.ByteSize()), self.header.SerializeToString()]\n            + [obj.SerializeToString() for obj in self.objects],\n        )",
       "        return b\"\".join(\n            [_VarintBytes(self.header.ByteSize()), self.header.SerializeToString()]\n            + [obj.SerializeToString() for obj in reversed(self.objects)],\n        )", "C05.R3"),
+    M("patch-base-first-payload", "iwafile.py", "ID_NAME_MAP[base_message.type],", "type(payloads[0]),", "C05.R4"),
+    M("patch-base-index-zero", "iwafile.py", "archive_info.message_infos[message_info.base_message_index]", "archive_info.message_infos[0]", "C05.R4"),
+    M("chunker-accumulate-if", "iwafile.py", """        uncompressed = b"".join([archive.to_buffer() for archive in self.archives])
+        payloads = []
+        while uncompressed:
+            payloads.append(snappy.compress(uncompressed[:65536]))
+            uncompressed = uncompressed[65536:]
+""", """        payloads = []
+        pending = b""
+        for archive in self.archives:
+            pending += archive.to_buffer()
+            if len(pending) >= 65536:
+                payloads.append(snappy.compress(pending[:65536]))
+                pending = pending[65536:]
+        if pending:
+            payloads.append(snappy.compress(pending))
+""", "C05.R2"),
+    T("patch-base-inlined", "iwafile.py", """                    base_message = archive_info.message_infos[message_info.base_message_index]
+                    klass = partial(
+                        ProtobufPatch.FromString,
+                        message_info,
+                        ID_NAME_MAP[base_message.type],
+                    )""", """                    base_type = archive_info.message_infos[message_info.base_message_index].type
+                    base_class = ID_NAME_MAP[base_type]
+                    klass = partial(ProtobufPatch.FromString, message_info, base_class)"""),
     M("single-chunk-parse", "iwafile.py", 'data = b"".join(cls._decompress_all(data))', "data = next(cls._decompress_all(data))", "C05.R4"),
     M("message-cursor-stale", "iwafile.py", "            payloads.append(output)\n            n += message_info.length", "            payloads.append(output)\n            n += len(message_payload) - 0 * message_info.length", "C05.R4"),
     M("pad-low-side", "iwafile.py", 'unpack("<I", bytes(header[1:]) + b"\\x00")[0]', 'unpack("<I", b"\\x00" + bytes(header[1:]))[0]', "C05.R1", count=2),
